@@ -96,6 +96,10 @@ def scalar_faults(mdl: Model, name, vals) -> List[str]:
             elif isinstance(seg, ArraySeg) and seg.elem[0] == 'struct':
                 for x in vals[seg.name]:
                     out.extend(scalar_faults(mdl, seg.elem[1], x))
+            elif isinstance(seg, ArraySeg) and seg.elem[0] == 'scalar':
+                for x in vals[seg.name]:
+                    if x >> (8 * seg.elem_static):
+                        out.append('scalar')
     return out
 
 
